@@ -274,8 +274,107 @@ def _scenarios():
         t.join()
         return out
 
+    def semaphore(T, Q, sleep):
+        sem, lock, st = T.Semaphore(2), T.Lock(), dict(inside=0, most=0, done=0)
+
+        def work():
+            for _ in range(3):
+                with sem:
+                    with lock:
+                        st["inside"] += 1
+                        st["most"] = max(st["most"], st["inside"])
+                    sleep(0.002)
+                    with lock:
+                        st["inside"] -= 1
+                        st["done"] += 1
+
+        ts = [T.Thread(target=work) for _ in range(4)]
+        [t.start() for t in ts]
+        [t.join() for t in ts]
+        b = T.BoundedSemaphore(1)
+        out = [st["done"], st["most"] <= 2, sem.acquire(blocking=False), sem.acquire(blocking=False), sem.acquire(blocking=False),
+               sem.acquire(timeout=0.01)]
+        try:
+            b.release()
+        except ValueError:
+            out.append("ValueError")
+        return out
+
+    def barrier(T, Q, sleep):
+        acts, idx, lock = [], [], T.Lock()
+        bar = T.Barrier(3, action=lambda: acts.append(len(idx)))
+
+        def work(k):
+            for r in range(2):
+                sleep(0.001 * k)
+                i = bar.wait()
+                with lock:
+                    idx.append((r, i))
+
+        ts = [T.Thread(target=work, args=(k,)) for k in range(3)]
+        [t.start() for t in ts]
+        [t.join() for t in ts]
+        lone = T.Barrier(2)
+        try:
+            lone.wait(timeout=0.01)
+            broke = False
+        except T.BrokenBarrierError:
+            broke = True
+        return sorted(idx), len(acts), acts[0], broke, lone.broken, bar.parties
+
+    def timer(T, Q, sleep):
+        out, ev = [], T.Event()
+        t1 = T.Timer(0.02, lambda: (out.append("fired"), ev.set()))
+        t2 = T.Timer(0.05, lambda: out.append("must not fire"))
+        t1.start()
+        t2.start()
+        t2.cancel()
+        ev.wait(2)
+        t1.join()
+        t2.join()
+        return out, t1.is_alive(), t2.is_alive()
+
+    def simple_queue(T, Q, sleep):
+        q, got = Q.SimpleQueue(), []
+
+        def prod(k):
+            for i in range(4):
+                q.put(10 * k + i)
+                sleep(0.0005)
+
+        def cons():
+            for _ in range(12):
+                got.append(q.get())
+
+        ts = [T.Thread(target=prod, args=(k,)) for k in range(3)] + [T.Thread(target=cons)]
+        [t.start() for t in ts]
+        [t.join() for t in ts]
+        try:
+            q.get(timeout=0.01)
+            e = False
+        except Q.Empty:
+            e = True
+        return sorted(got), q.empty(), e
+
+    def local(T, Q, sleep):
+        loc, seen, lock = T.local(), [], T.Lock()
+        loc.v = "main"
+
+        def work(k):
+            has = hasattr(loc, "v")
+            loc.v = k
+            sleep(0.001)
+            with lock:
+                seen.append((k, has, loc.v))
+
+        ts = [T.Thread(target=work, args=(k,)) for k in range(3)]
+        [t.start() for t in ts]
+        [t.join() for t in ts]
+        return sorted(seen), loc.v
+
     return dict(mutex=mutex, prodcons=prodcons, cond_timeout=cond_timeout, notify_n=notify_n, event=event, rlock=rlock,
-                misuse=misuse, lock_timeout=lock_timeout, join_timeout=join_timeout, queue_misc=queue_misc)
+                misuse=misuse, lock_timeout=lock_timeout, join_timeout=join_timeout, queue_misc=queue_misc,
+                semaphore=semaphore, barrier=barrier, timer=timer, simple_queue=simple_queue, local=local)
 
 
 def prims_fidelity(base_seed, n_seeds=120):
@@ -307,7 +406,107 @@ def prims_fidelity(base_seed, n_seeds=120):
           f"with one real-thread execution each, mismatches: {len(bad)}, {time.time() - t0:.0f}s")
     for b in bad[:8]:
         print("  MISMATCH", b, "real:", repr(real[b[0]])[:200])
-    return 2 if bad else 0
+    fs_bad = fs_seam()
+    return 2 if bad or fs_bad else 0
+
+
+def fs_seam():
+    """The file fault layer sees every way of writing under its root (builtin open, pathlib, shutil, tempfile,
+    descriptor-level os functions), leaves every other path alone, produces what the real functions produce, and
+    leaves nothing patched behind."""
+    import builtins
+    import io
+    import os
+    import pathlib
+    import shutil
+    import tempfile
+
+    from simkit import fs
+
+    bad = []
+    before = (builtins.open, io.open, os.replace, os.rename, os.remove, os.unlink, os.open, os.write, os.close,
+              shutil._USE_CP_SENDFILE)
+    root = tempfile.mkdtemp(prefix="verif-fs-selftest-", dir="/dev/shm" if os.path.isdir("/dev/shm") else None)
+    other = tempfile.mkdtemp(prefix="verif-fs-selftest-other-")
+    try:
+        plan = fs.FaultPlan(None, 16, root=root)
+        fs.install(plan)
+        try:
+            def ops_of(f):
+                n = len(plan.ops)
+                f()
+                return [o[0] for o in plan.ops[n:]]
+
+            a, b = os.path.join(root, "a"), os.path.join(root, "b")
+            expect = {
+                "builtin open": (lambda: open(a, "wb").close(), ["open", "close"]),
+                "text write 40 bytes / 16-byte buffer": (lambda: open(a, "w").__exit__(None, None, None) or _w(a, "x" * 40), None),
+                "pathlib write_bytes": (lambda: pathlib.Path(a).write_bytes(b"12345"), ["open", "write", "close"]),
+                "pathlib replace": (lambda: pathlib.Path(a).replace(b), ["replace"]),
+                "os.rename": (lambda: os.rename(b, a), ["rename"]),
+                "shutil.copyfile": (lambda: shutil.copyfile(a, b), ["open", "write", "close"]),
+                "shutil.move": (lambda: shutil.move(b, os.path.join(root, "c")), ["rename"]),
+                "os.open/os.write/os.close": (lambda: _fd(os, os.path.join(root, "d")), ["open", "write", "close"]),
+                "tempfile in root": (lambda: _tmp(tempfile, root), ["open", "write", "close"]),
+                "os.unlink": (lambda: os.unlink(a), ["remove"]),
+                "outside the root": (lambda: (open(os.path.join(other, "x"), "wb").close(),
+                                             shutil.copyfile(os.path.join(other, "x"), os.path.join(other, "y")),
+                                             os.replace(os.path.join(other, "y"), os.path.join(other, "z"))), []),
+                "reading inside the root": (lambda: open(os.path.join(root, "c"), "rb").read(), []),
+            }
+            for name, (f, want) in expect.items():
+                got = ops_of(f)
+                if want is not None and got != want:
+                    bad.append((name, got, want))
+            if open(os.path.join(root, "c"), "rb").read() != b"12345" or open(os.path.join(root, "d"), "rb").read() != b"fd-level":
+                bad.append(("content", None, None))
+        finally:
+            fs.uninstall()
+        after = (builtins.open, io.open, os.replace, os.rename, os.remove, os.unlink, os.open, os.write, os.close,
+                 shutil._USE_CP_SENDFILE)
+        if after != before:
+            bad.append(("not restored", None, None))
+        # a fault at the k-th operation of a copy made by shutil: the error surfaces, the destination is torn
+        with open(os.path.join(root, "src"), "wb") as f:
+            f.write(b"z" * 100)
+        plan = fs.FaultPlan(dict(k=2, kind="short", errno=28), 16, root=root)
+        fs.install(plan)
+        try:
+            try:
+                shutil.copyfile(os.path.join(root, "src"), os.path.join(root, "dst"))
+                bad.append(("fault not raised", None, None))
+            except OSError as e:
+                if e.errno != 28:
+                    bad.append(("wrong errno", e.errno, 28))
+        finally:
+            fs.uninstall()
+        n = os.path.getsize(os.path.join(root, "dst"))
+        if not 0 < n < 100:
+            bad.append(("short write inside shutil.copyfile", n, "0 < n < 100"))
+    finally:
+        shutil.rmtree(root, ignore_errors=True)
+        shutil.rmtree(other, ignore_errors=True)
+    print(f"file seam self-test: builtin open, pathlib, shutil, tempfile and descriptor-level writes under the root are "
+          f"seen as raw operations, other paths untouched, patches restored: problems: {len(bad)}")
+    for x in bad:
+        print("  PROBLEM", x)
+    return bad
+
+
+def _w(path, text):
+    with open(path, "w") as f:
+        f.write(text)
+
+
+def _fd(os, path):
+    fd = os.open(path, os.O_WRONLY | os.O_CREAT | os.O_TRUNC, 0o644)
+    os.write(fd, b"fd-level")
+    os.close(fd)
+
+
+def _tmp(tempfile, root):
+    with tempfile.NamedTemporaryFile(dir=root, delete=False) as f:
+        f.write(b"tmp")
 
 
 # --------------------------------------------------------------------------
